@@ -125,7 +125,7 @@ def run_job(job):
     frame, method, limit = job['frame'], job['method'], job.get('limit')
     n = len(cols[0])
     index = pd.DatetimeIndex(GRID[:n])
-    pdo = pd.DataFrame({k: pd.Series(c, index, dtype=float) for k, c in zip('ab', cols)}, index=index, columns=list('ab')) if frame else pd.Series(cols[0], index, dtype=float)
+    pdo = pd.DataFrame({k: pd.Series(c, index, dtype=float) for k, c in zip('ab', cols)}, index=index, columns=list('ab'[:len(cols)])) if frame else pd.Series(cols[0], index, dtype=float)
     arr = pdo.values.copy()
     call_nona = method == 'nona()'
     trace = []
@@ -214,6 +214,11 @@ def jobs_for(tier, seed):
         for cols in pats:
             for m, l in (full if n <= 2 or not quick else singles + [(p, None) for p in rng.sample(PAIRS, 6)]):
                 jobs.append(dict(cols=cols, frame=True, method=m, limit=l))
+    # frames with exactly one column (and their (n, 1) arrays): a frame, not a Series - the 2-d code paths with the smallest width
+    for n in range(0, (4 if quick else 6) + 1):
+        for cols in patterns(n, 1):
+            for m, l in (singles + [(p, None) for p in rng.sample(PAIRS, 3)]):
+                jobs.append(dict(cols=cols, frame=True, method=m, limit=l))
     return jobs, dict(vec_full=vec_full, vec_single=vec_single, frm_full=frm_full, frm_max=frm_max)
 
 
@@ -226,7 +231,7 @@ def run(tier, seed):
     jobs, b = jobs_for(tier, seed)
     c = Collector('C12', 'every NaN pattern of float vectors of length 0..%d (cells i+1) x {ffill,bfill,ffill_na,ffill_0} x limit {None,1,2,3}, {0.0,-1.5,nona,fnna}, '
                   'nona() and all 49 two-method lists over {ffill,bfill,0.0,nona,fnna,ffill_na,ffill_0}%s; every NaN pattern of two-column frames of '
-                  'length 0..%d%s; each case runs on the Series/DataFrame (daily DatetimeIndex) and on its numpy array; clauses: values = explicit-loop oracle, '
+                  'length 0..%d%s and of one-column frames / (n,1) arrays of length 0..4 (thorough 6); each case runs on the Series/DataFrame (daily DatetimeIndex) and on its numpy array; clauses: values = explicit-loop oracle, '
                   'surviving rows, non-NaN cells unchanged, array result == pandas .values, input unmodified. Distinct by (pattern, frame?, method, limit); '
                   'non-trivial when the pattern contains at least one NaN'
                   % (b['vec_full'], '' if not quick else '; lengths 7-%d with the single methods and 2 seeded lists' % b['vec_single'], b['frm_full'],
